@@ -279,6 +279,17 @@ pub fn exec(case: &[i64]) -> Outcome {
         if !matches!(serde_json::from_value::<OneOrMany<Kv>>(ser), Ok(b) if b == *x) { why = Some("OneOrMany does not deserialise from its own JSON to an equal value"); }
         if x.as_slice() != l.as_slice() { why = Some("OneOrMany constructor lost or reordered elements"); } }
       for a in &oom { for b in &oom { if a != b { why = Some("two OneOrMany constructors give unequal values for one list"); } } }
+      // from_iter looks at the iterator's size hint: the same list through iterators with every kind of hint (exact, loose, open, lower bound 1, wrong)
+      struct Hinted<I> { inner: I, lo: usize, hi: Option<usize> }
+      impl<I: Iterator> Iterator for Hinted<I> { type Item = I::Item; fn next(&mut self) -> Option<I::Item> { self.inner.next() } fn size_hint(&self) -> (usize, Option<usize>) { (self.lo, self.hi) } }
+      let mut fi: Vec<OneOrMany<Kv>> = vec![l.clone().into_iter().filter(|_| true).collect(), { let mut it = l.clone().into_iter(); std::iter::from_fn(move || it.next()).collect() }];
+      if let Some(first) = l.first().cloned() {
+        fi.push(std::iter::once(first.clone()).chain(l[1..].to_vec().into_iter().filter(|_| true)).collect());
+        let rest = l[1..].to_vec(); let mut k = 0usize; fi.push(std::iter::successors(Some(first), move |_| { let r = rest.get(k).cloned(); k += 1; r }).collect());
+      }
+      for (lo, hi) in [(0, Some(0)), (0, Some(1)), (1, Some(1)), (1, Some(2)), (1, None), (0, None), (2, Some(2)), (l.len(), Some(l.len())), (1, Some(usize::MAX))] { fi.push(Hinted { inner: l.clone().into_iter(), lo, hi }.collect()); }
+      for x in &fi { if *x != oom[0] || x.as_slice() != l.as_slice() { why = Some("OneOrMany::from_iter gives a different value for the same elements depending on the iterator's size hint"); }
+        if x.len() == 1 && serde_json::to_value(x).unwrap().is_array() { why = Some("singleton OneOrMany built through a constructor is not serialised as a bare value"); } }
       let o = Outcome::new(obs).class("wrapper-routes");
       match why { Some(w) => o.fail(w), None => o }
     }
